@@ -73,6 +73,43 @@ Theorem C08_ppt_iff :
 Proof. exact ppt_detect_iff. Qed.
 Print Assumptions C08_ppt_iff.
 
+(* legacy PPT encrypted with RC4 CryptoAPI whose document properties stay in the clear has NO EncryptedSummary
+   stream; what marks it is CurrentUserAtom.headerToken.  Today's detector (aware = false) misses it:
+   replayed on the real code by the check (key ppt-cryptsession10-no-encryptedsummary, open known finding) *)
+Theorem C08_ppt_token_sound_refuted :
+  exists (lower : str -> str) (es : list str),
+    token_encrypted (Some PPT_ENCRYPTED_TOKEN) = true
+    /\ ppt_detect_tok lower false (Some es) (Some PPT_ENCRYPTED_TOKEN) = false.
+Proof.
+  exists (fun x => x), [s "Current User"; s "PowerPoint Document"; s "Pictures"]. vm_compute. auto.
+Qed.
+Print Assumptions C08_ppt_token_sound_refuted.
+
+(* the strongest true statement for today's code: encrypted AND one of the stream names present *)
+Theorem C08_ppt_sound_partial :
+  forall (lower : str -> str) (aware : bool) (es : list str) (token : option BinNums.N),
+    (exists e nm, In e es /\ In nm (ENC_STREAMS ++ PPT_STREAMS) /\ lower e = lower nm) ->
+    ppt_detect_tok lower aware (Some es) token = true.
+Proof.
+  intros lower aware es token H. unfold ppt_detect_tok. apply orb_true_iff. left.
+  apply ppt_detect_iff. exact H.
+Qed.
+Print Assumptions C08_ppt_sound_partial.
+
+(* with the proposed repair (aware = true): exact — stream names or the header token, nothing else *)
+Theorem C08_ppt_token_aware_iff :
+  forall (lower : str -> str) (es : list str) (token : option BinNums.N),
+    ppt_detect_tok lower true (Some es) token = true <->
+    (exists e nm, In e es /\ In nm (ENC_STREAMS ++ PPT_STREAMS) /\ lower e = lower nm)
+    \/ token = Some PPT_ENCRYPTED_TOKEN.
+Proof.
+  intros lower es token. unfold ppt_detect_tok. rewrite orb_true_iff, ppt_detect_iff. cbn [andb].
+  split; intros [H|H]; auto; right.
+  - destruct token as [t|]; [|discriminate]. cbn in H. apply N.eqb_eq in H. subst. reflexivity.
+  - subst. reflexivity.
+Qed.
+Print Assumptions C08_ppt_token_aware_iff.
+
 (* ---------------------------------------------------------------- DOC: FIB flag *)
 (* for a stream that passes the size and magic checks the outcome is decided by bit 8 of the flag word
    (= bit 0 of byte 0x0B) alone *)
